@@ -2,8 +2,12 @@ package p_launch
 
 import (
 	"fmt"
+	"runtime"
 	"strings"
+	"sync"
+	"sync/atomic"
 	"testing"
+	"time"
 
 	"github.com/spikeekips/mitum/base"
 	"github.com/spikeekips/mitum/launch"
@@ -290,6 +294,71 @@ func c35Both(before, latest string) string {
 	return "# loaded before the update:\n" + before + "# latest (imported into the same ACL):\n" + latest
 }
 
+// ---- concurrent part (E): Allow from request handlers while the runtime ACL writer re-imports the table
+
+type c35ConcQuery struct {
+	user, scope string
+	required    int
+}
+
+// c35ConcWant is the statement's decision for one query on one table of the cycle.
+type c35ConcWant struct {
+	allow    bool
+	assigned int
+	step     int
+}
+
+// matches: same comparison as c35Judge (allow always; assigned when an entry decided).
+func (w c35ConcWant) matches(gotAllow bool, gotAssigned int) bool {
+	if gotAllow != w.allow {
+		return false
+	}
+
+	return w.step < 1 || w.step > 4 || gotAssigned == w.assigned
+}
+
+type c35ConcCounter struct {
+	n atomic.Int64
+	_ [56]byte
+}
+
+type c35ConcMismatch struct {
+	reader, query int
+	gotAllow      bool
+	gotAssigned   int
+	lo, hi        int64 // imports whose table was admissible for this call (0 = the start-up load)
+	panicked      string
+}
+
+// c35ConcPool: deterministic public keys used as table users of the concurrent part.
+func c35ConcPool(t *testing.T, n int) []string {
+	keys := make([]string, n)
+
+	for i := range keys {
+		priv, err := base.NewMPrivatekeyFromSeed(fmt.Sprintf("verif-c35-acl-conc-user-seed-%03d-0123456789abcdef", i))
+		if err != nil {
+			t.Fatalf("key: %v", err)
+		}
+
+		keys[i] = priv.Publickey().String()
+	}
+
+	return keys
+}
+
+// c35Without is the table without the entries of one user (what a reader sees when that user is not loaded).
+func c35Without(tb c35Table, user string) c35Table {
+	n := c35Table{}
+
+	for u, m := range tb {
+		if u != user {
+			n[u] = m
+		}
+	}
+
+	return n
+}
+
 func TestC35(t *testing.T) {
 	r := ev.Start(t, "C35")
 	defer r.Finish()
@@ -307,12 +376,21 @@ func TestC35(t *testing.T) {
 		"from the table in force by gain (users keep every entry and gain 1..3, half of them explicit prohibits), gain-default " +
 		"(a user or the default user gains `_default`), change, drop, reorder (same table, permuted text), same, add-user, " +
 		"remove-user, fresh; after every update all 6 users x 5 scopes x 2 required levels are compared with the model on the latest table. " +
-		"non-trivial decision: taken at step 2, 3 or 4 (a fallback was needed); B, B' cases are distinct by construction, C, D by (tables, queries)")
+		"E (rapid, concurrent): 2..6 reader goroutines ask Allow for drawn (user, scope, required) while one writer re-imports a cycle of " +
+		"2..3 drawn tables 4..12 times into the same ACL (1..64 users + _default, mostly 20..64 so that a reload takes long; users " +
+		"whose entries are the same in every table of the cycle, half of their entries explicit prohibits, the default user mostly " +
+		"granting; users whose entries change or who come and go; text order drawn per table); every answer must be the statement's " +
+		"decision on a table that was in force at some moment of the call (the latest one when no Import overlaps the call, the one " +
+		"before or after an overlapping Import), ordered by one atomic number advanced by the writer before each Import call and after " +
+		"each return; non-trivial in E: a query whose decision is the same on every table of the cycle but differs on a table in " +
+		"which the asked user or the default user is missing. " +
+		"non-trivial decision elsewhere: taken at step 2, 3 or 4 (a fallback was needed); B, B' cases are distinct by construction, C, D, E by (tables, queries)")
 	r.Floor(1000)
 	r.Assume("`required` ranges over the allow permissions (read and above): callers pass ReadAllowACLPerm/WriteAllowACLPerm/NewAllowACLPerm(n); `assigned` over all valid permissions",
 		"users in a table are public keys or `_default`; the superuser never has a table entry (setUser rejects it)",
 		"the assigned permission returned by Allow is compared with the deciding entry (behaviour documented by the in-tree tests)",
-		"after a table is re-imported into a live ACL (start-up load, then the runtime ACL writer of launch/p_node_rw.go) the table the statement talks about is the LATEST imported one; the `updated` result of Import is not judged; an empty body is not a table (Import ignores it) and is never sent")
+		"after a table is re-imported into a live ACL (start-up load, then the runtime ACL writer of launch/p_node_rw.go) the table the statement talks about is the LATEST imported one; the `updated` result of Import is not judged; an empty body is not a table (Import ignores it) and is never sent",
+		"request handlers call ACL.Allow concurrently with the runtime ACL writer calling YAMLACL.Import on the same ACL (launch/p_node_rw.go); re-imports themselves are issued one at a time; while an Import is in flight the table in force before it and the one it loads are both accepted, nothing else is; verdicts use call/return order only, never clocks")
 
 	w := c35NewWorld(t)
 
@@ -909,4 +987,415 @@ func TestC35(t *testing.T) {
 			r.Sample(map[string]any{"part": "update", "tables_ops_required": fp.String()})
 		}
 	})
+
+	// ---- E. concurrent: request handlers ask Allow while the runtime ACL writer (launch/p_node_rw.go: writeACL ->
+	// YAMLACL.Import) re-imports the table. 2..6 reader goroutines ask drawn (user, scope, required); this goroutine
+	// re-imports a cycle of 2..3 drawn tables. Oracle (linearizability of the statement's decision over the table in
+	// force): `epoch` is one atomic number advanced only by the writer, to 2i-1 right BEFORE the call of import i and to
+	// 2i right AFTER its return; a reader loads it before the call of Allow (e1) and after its return (e2). Import i
+	// had returned before Allow was called iff 2i <= e1, and was called before Allow returned only if 2i-1 <= e2. So
+	// the tables that can have been in force at some moment of the Allow call are those of imports e1/2 .. (e2+1)/2:
+	// exactly the latest one when no Import overlaps, the one before or after while one overlaps. An answer that is
+	// the statement's decision on none of them was taken from something that never was the table. No clocks involved.
+	pool := c35ConcPool(t, 64)
+	concRedact := func(yaml string) string {
+		for i, u := range pool {
+			yaml = strings.ReplaceAll(yaml, u, fmt.Sprintf("p%02d", i))
+		}
+
+		return c35Redact(w, yaml)
+	}
+	concName := func(u string) string {
+		for i, p := range pool {
+			if p == u {
+				return fmt.Sprintf("p%02d", i)
+			}
+		}
+
+		return c35UserName(w, u)
+	}
+
+	// entries of a table user: an explicit prohibit half of the time; of the default user: mostly plain grants
+	userPermGen := rapid.OneOf(rapid.Just(c35Prohibit), permGen)
+	defaultPermGen := rapid.OneOf(rapid.SampledFrom([]int{2, 3, 4}), permGen)
+	concReqGen := rapid.OneOf(rapid.Just(2), reqGen)
+
+	drawEntries := func(rt *rapid.T, gen *rapid.Generator[int]) map[string]int {
+		m := map[string]int{}
+
+		for _, s := range allScopes {
+			if rapid.IntRange(0, 2).Draw(rt, "cell") == 0 {
+				m[s] = gen.Draw(rt, "perm")
+			}
+		}
+
+		if len(m) < 1 {
+			m[rapid.SampledFrom(allScopes).Draw(rt, "scope")] = gen.Draw(rt, "perm")
+		}
+
+		return m
+	}
+
+	var concCalls, concOverlapped, concQuiescent atomic.Int64
+
+	r.ShrinkTime(8 * time.Second) // a concurrent failure does not replay deterministically: do not spend long on shrinking
+	r.Checks(150, 2400)
+	rapid.Check(t, func(rt *rapid.T) {
+		// -- the tables of the cycle
+		nListed := rapid.OneOf(rapid.IntRange(1, 8), rapid.IntRange(20, len(pool)), rapid.IntRange(40, len(pool))).Draw(rt, "listedUsers") // many users: a reload takes long
+		listed := pool[:nListed]
+		nTables := rapid.IntRange(2, 3).Draw(rt, "tables")
+		defaultKind := rapid.SampledFrom([]string{"stable", "stable", "stable", "churn", "absent"}).Draw(rt, "defaultUser")
+
+		// users[0] always changes (distinct `s4` entry in every table of the cycle), so every import is a real reload
+		togglePerms := rapid.Permutation([]int{c35Prohibit, 2, 3, 4}).Draw(rt, "toggle")
+
+		tables := make([]c35Table, nTables)
+		for k := range tables {
+			tables[k] = c35Table{}
+		}
+
+		var stable []string // listed users whose entries are the same in every table of the cycle
+
+		for i, u := range listed {
+			switch {
+			case i == 0:
+				for k := range tables {
+					tables[k][u] = drawEntries(rt, userPermGen)
+					tables[k][u]["s4"] = togglePerms[k]
+				}
+			case rapid.IntRange(0, 2).Draw(rt, "userKind") != 0: // stable
+				m := drawEntries(rt, userPermGen)
+				for k := range tables {
+					tables[k][u] = m
+				}
+
+				stable = append(stable, u)
+			default: // churn: other entries in every table, sometimes not in the table at all
+				for k := range tables {
+					if rapid.IntRange(0, 3).Draw(rt, "churnAbsent") != 0 {
+						tables[k][u] = drawEntries(rt, userPermGen)
+					}
+				}
+			}
+		}
+
+		switch defaultKind {
+		case "stable":
+			m := drawEntries(rt, defaultPermGen)
+			for k := range tables {
+				tables[k][c35DefaultName] = m
+			}
+		case "churn":
+			for k := range tables {
+				if rapid.IntRange(0, 3).Draw(rt, "churnAbsent") != 0 {
+					tables[k][c35DefaultName] = drawEntries(rt, defaultPermGen)
+				}
+			}
+		}
+
+		yamls := make([]string, nTables)
+
+		for k := range tables {
+			order := rapid.Permutation(append([]string{c35DefaultName}, listed...)).Draw(rt, "userOrder")
+			if rapid.Bool().Draw(rt, "defaultFirst") { // the usual way to write the file
+				first := []string{c35DefaultName}
+
+				for _, u := range order {
+					if u != c35DefaultName {
+						first = append(first, u)
+					}
+				}
+
+				order = first
+			}
+
+			yamls[k] = c35YAML(tables[k], order, allScopes, rapid.Bool().Draw(rt, "quote"))
+		}
+
+		// -- readers and their queries
+		nReaders := rapid.IntRange(2, 6).Draw(rt, "readers")
+		nImports := rapid.IntRange(4, 12).Draw(rt, "imports")
+
+		queries := make([][]c35ConcQuery, nReaders)
+		want := make([][][]c35ConcWant, nReaders)
+
+		var fp strings.Builder
+
+		for k := range yamls {
+			fmt.Fprintf(&fp, "%s|", concRedact(yamls[k]))
+		}
+
+		fmt.Fprintf(&fp, "readers=%d,imports=%d|", nReaders, nImports)
+
+		sensitive, prohibitOverAllow, fallback := false, false, false
+
+		for ri := range queries {
+			nq := rapid.IntRange(3, 8).Draw(rt, "queries")
+			queries[ri] = make([]c35ConcQuery, nq)
+			want[ri] = make([][]c35ConcWant, nq)
+
+			for qi := range queries[ri] {
+				var u string
+
+				switch kind := rapid.IntRange(0, 7).Draw(rt, "quserKind"); {
+				case kind < 4 && len(stable) > 0:
+					u = rapid.SampledFrom(stable).Draw(rt, "quser")
+				case kind < 6:
+					u = rapid.SampledFrom(listed).Draw(rt, "quser")
+				case kind == 6:
+					u = w.u2 // never in a table
+				default:
+					u = w.superuser
+				}
+
+				q := c35ConcQuery{
+					user:     u,
+					scope:    rapid.SampledFrom([]string{"s1", "s2", "s3", "s4", "s9"}).Draw(rt, "qscope"),
+					required: concReqGen.Draw(rt, "required"),
+				}
+				queries[ri][qi] = q
+				fmt.Fprintf(&fp, "%d:%s,%s,%d;", ri, concName(u), q.scope, q.required)
+
+				want[ri][qi] = make([]c35ConcWant, nTables)
+				same, differsHalf, ownProhibit, othersAllow := true, false, true, true
+
+				for k := range tables {
+					allow, assigned, step := c35Decide(tables[k], w.superuser, q.user, q.scope, q.required)
+					want[ri][qi][k] = c35ConcWant{allow: allow, assigned: assigned, step: step}
+
+					if step >= 2 && step <= 4 {
+						fallback = true
+					}
+
+					if k > 0 && want[ri][qi][k] != want[ri][qi][0] {
+						same = false
+					}
+
+					// what the statement gives on a table in which this user (or the default user) is missing
+					for _, gone := range []string{q.user, c35DefaultName} {
+						hAllow, hAssigned, hStep := c35Decide(c35Without(tables[k], gone), w.superuser, q.user, q.scope, q.required)
+						if !want[ri][qi][k].matches(hAllow, hAssigned) && (hStep != 5 || want[ri][qi][k].allow) {
+							differsHalf = true // the answer read off such a partial table is not the answer of the table
+						}
+
+						if gone == q.user && !hAllow {
+							othersAllow = false
+						}
+					}
+
+					if step < 1 || step > 2 || assigned != c35Prohibit {
+						ownProhibit = false
+					}
+				}
+
+				if same && differsHalf {
+					sensitive = true // the answer is the same on every table of the cycle, and another one on a part of a table
+				}
+
+				if ownProhibit && othersAllow {
+					prohibitOverAllow = true
+				}
+			}
+		}
+
+		// -- run
+		acl := w.newACL(rt)
+		c35Import(rt, acl, w, yamls[0]) // start-up load = import 0
+
+		var epoch atomic.Int64
+		var done, stop atomic.Bool
+		var started, wg sync.WaitGroup
+
+		mismatches := make([]*c35ConcMismatch, nReaders)
+		progress := make([]c35ConcCounter, nReaders) // calls made so far, one cache line per reader
+		var exited atomic.Int64
+
+		progressSum := func() (n int64) {
+			for i := range progress {
+				n += progress[i].n.Load()
+			}
+
+			return n
+		}
+		const maxCalls = 4_000_000 // per reader; only a bound, the readers normally run until the last import returned
+
+		for ri := 0; ri < nReaders; ri++ {
+			started.Add(1)
+			wg.Add(1)
+
+			go func(ri int) {
+				defer wg.Done()
+
+				var calls, overlapped, quiescent int64
+				signalled := false
+				cur := 0
+
+				defer func() {
+					if x := recover(); x != nil {
+						mismatches[ri] = &c35ConcMismatch{reader: ri, query: cur, panicked: fmt.Sprint(x)}
+						stop.Store(true)
+					}
+
+					if !signalled {
+						started.Done()
+					}
+
+					exited.Add(1)
+					concCalls.Add(calls)
+					concOverlapped.Add(overlapped)
+					concQuiescent.Add(quiescent)
+				}()
+
+				one := func(qi int) bool {
+					cur = qi
+					q := queries[ri][qi]
+
+					e1 := epoch.Load()
+					gotAssigned, gotAllow := acl.Allow(q.user, launch.ACLScope(q.scope), launch.ACLPerm(q.required))
+					e2 := epoch.Load()
+
+					lo, hi := e1/2, (e2+1)/2
+					calls++
+					progress[ri].n.Store(calls)
+
+					if lo != hi {
+						overlapped++
+					} else if lo > 0 {
+						quiescent++
+					}
+
+					for k := lo; k <= hi && k < lo+int64(nTables); k++ {
+						if want[ri][qi][int(k)%nTables].matches(gotAllow, int(gotAssigned)) {
+							return true
+						}
+					}
+
+					mismatches[ri] = &c35ConcMismatch{reader: ri, query: qi, gotAllow: gotAllow, gotAssigned: int(gotAssigned), lo: lo, hi: hi}
+					stop.Store(true)
+
+					return false
+				}
+
+				for i := 0; i < maxCalls && !done.Load() && !stop.Load(); i++ {
+					if !one(i % len(queries[ri])) {
+						return
+					}
+
+					if !signalled {
+						signalled = true
+						started.Done()
+					}
+				}
+
+				// the last import has returned: every query once more, now exactly the latest table counts
+				for qi := range queries[ri] {
+					if stop.Load() || !one(qi) {
+						return
+					}
+				}
+			}(ri)
+		}
+
+		started.Wait() // every reader is asking before the first re-import goes out
+
+		var importErr error
+
+		for i := 1; i <= nImports && !stop.Load(); i++ {
+			epoch.Store(int64(2*i - 1))
+			_, err := acl.Import([]byte(yamls[i%nTables]), w.enc)
+			epoch.Store(int64(2 * i))
+
+			if err != nil {
+				importErr = err
+				stop.Store(true)
+			}
+
+			// let the readers ask a few times with no Import in flight (exactly the latest table counts then) before
+			// the next one goes out; paced by their call counts, never by a clock
+			for from, spins := progressSum(), 0; spins < 1_000_000 && progressSum() < from+int64(4*nReaders) && exited.Load() < 1 && !stop.Load(); spins++ {
+				runtime.Gosched()
+			}
+		}
+
+		done.Store(true)
+		wg.Wait()
+
+		if importErr != nil {
+			rt.Fatalf("harness: Import rejected a well-formed table: %v", importErr)
+		}
+
+		for _, mm := range mismatches {
+			if mm == nil {
+				continue
+			}
+
+			q := queries[mm.reader][mm.query]
+
+			var all strings.Builder
+			for k := range yamls {
+				fmt.Fprintf(&all, "# table %d of the cycle:\n%s", k, concRedact(yamls[k]))
+			}
+
+			if len(mm.panicked) > 0 {
+				r.Violation(rt, "panic-in-allow-during-import", "concurrent: Allow(user=%s, scope=%s, required=%s) panicked while the table was re-imported by another goroutine: %s; tables:\n%s",
+					concName(q.user), q.scope, c35RefPermText(q.required), mm.panicked, all.String())
+
+				continue
+			}
+
+			var adm strings.Builder
+
+			for k := mm.lo; k <= mm.hi && k < mm.lo+int64(nTables); k++ {
+				wk := want[mm.reader][mm.query][int(k)%nTables]
+				fmt.Fprintf(&adm, " table %d -> (%s, %v) at step %d;", int(k)%nTables, c35Text(wk.assigned), wk.allow, wk.step)
+			}
+
+			// diagnosis: the answer of a table of the cycle that was not in force (replaced by an Import that had
+			// returned, or not sent yet), or of no table at all (a partly loaded one)
+			sig, what := "allow-from-half-loaded-table", "it is the decision on none of the imported tables either: the answer was taken from a partly loaded table"
+
+			for k := range tables {
+				if want[mm.reader][mm.query][k].matches(mm.gotAllow, mm.gotAssigned) {
+					sig, what = "stale-table-after-update", fmt.Sprintf("it is the decision on table %d, which was not in force during the call", k)
+				}
+			}
+
+			overlap := "no Import overlapped the call, so exactly the latest table counts"
+			if mm.lo != mm.hi {
+				overlap = "an Import overlapped the call, so the table in force before it and the one it loads both count"
+			}
+
+			r.Violation(rt, sig, "concurrent (%d readers, 1 writer re-importing %d tables in turn): Allow(user=%s, scope=%s, required=%s) = (%s, %v); %s; the statement gives:%s %s; tables:\n%s",
+				nReaders, nTables, concName(q.user), q.scope, c35RefPermText(q.required), launch.ACLPerm(mm.gotAssigned), mm.gotAllow, overlap, adm.String(), what, all.String())
+		}
+
+		cl := []string{"part:concurrent"}
+
+		if nListed >= 20 {
+			cl = append(cl, "conc:many-users")
+		}
+
+		if sensitive {
+			cl = append(cl, "conc:query-sensitive-to-partial-table")
+		}
+
+		if prohibitOverAllow {
+			cl = append(cl, "conc:own-prohibit-over-default-grant")
+		}
+
+		if fallback {
+			cl = append(cl, "conc:fallback-step")
+		}
+
+		r.Case(fp.String(), sensitive, cl...)
+
+		if sensitive && r.WantSample() {
+			r.Sample(map[string]any{"part": "concurrent", "tables_readers_queries": fp.String()})
+		}
+	})
+
+	r.Extra("concurrent_allow_calls", concCalls.Load())
+	r.Extra("concurrent_allow_calls_overlapping_an_import", concOverlapped.Load())
+	r.Extra("concurrent_allow_calls_between_imports", concQuiescent.Load())
 }
